@@ -139,6 +139,7 @@ def run_contract(contract: Contract, loader: Loader, contracts_by_target=None, m
                 rep.undecided.append(("path-limit", f"{contract.target}[{variant}] more than {max_paths} paths"))
                 break
             pr = run_path(contract, func, loader, contracts_by_target or {}, variant, prefix)
+            pr.variant = variant
             rep.paths.append(pr)
             for p in pr.pending:
                 work.append(p)
